@@ -281,12 +281,13 @@ CLAIMED["C07"]["text"] += (" The disk half is under contract (Engine V, proof, a
     "by etag) reconstructs a delta only from the baseline file named by the delta's own header found in the baseline directory, and with the "
     "baseline missing returns the sibling/full file's payload or {} -- never the delta body and never a reconstruction; write_snapshot_auto "
     "writes exactly one file: a delta (header naming baseline and target, body = compute_delta(baseline payload, payload)) iff delta mode was "
-    "requested and the baseline full file exists, otherwise a full file with the whole payload.")
+    "requested and the baseline full file exists, otherwise a full file with the whole payload; the delta branch of load_latest_snapshot "
+    "(region) reconstructs from the named baseline or reports absence (loaded=False) -- one violation repaired in /repo.")
 CLAIMED["C07"]["note"] = ("The round-trip law itself is bounded exploration (same symbolic semantics, keys encoded as lists of dot-free words), not proof, and "
     "fails for '' / '.' keys (known findings). In the disk contracts _find_snapshot_file, _read_header_payload and _write_lines are assumed "
     "contracts over ghost files (what json.loads / zstd / the atomic writer do is C08 / not modelled), apply_delta / compute_delta are "
     "uninterpreted functions, os.path.join is uninterpreted with one stated fact; corrupt baselines (unparsable JSON: an exception of "
-    "_read_header_payload) and the delta branch of load_latest_snapshot are not under contract.")
+    "_read_header_payload; a baseline truncated to its header line is parsed as a body) are not under contract.")
 
 CLAIMED["C02"]["text"] += (" The metrics gate predicate (both copies: engine/util/metrics.py:gate_on, stages/t2/config.py:metrics_gate_on) is verified "
     "(Engine V, every JSON-like cfg) to be true exactly when perf.enabled and perf.metrics.report_memory are both truthy, and the cache-hit "
